@@ -1,6 +1,42 @@
 """C13 — symmetric face-integral variant = non-symmetric minus faces already reported by a constructed lower-index neighbour."""
 from . import rules, dims
-from .. import smt, runner, extract
+from .. import smt, runner, extract, symex
+from ..e2 import *
+from ..terms import And, Eq, TRUE
+from ..symex import Struct
+
+XF = ("geometry.rs",)
+
+
+@isolated('stored_vs_public_face_integral')
+def twin_obligations(prefix):
+    """'area/centroid integrals evaluated through the integrator equal the values stored in the tessellation': the stored face values are
+    accumulated by the private VoronoiFaceIntegral (voronoi_face.rs), the integrator route evaluates the public AreaCentroidIntegral
+    (integrals.rs). Contract: on the same accumulator state and the same fed triangle, init / collect / finalize of the two types produce
+    the same area and the same centroid (relational postcondition over the two real function bodies; A-REAL)."""
+    obs, units = [], []
+    area, cen, nrm = real("acc_area"), vec("acc_centroid"), vec("acc_normal")
+    v0, v1, v2, g = vec("v0"), vec("v1"), vec("v2"), vec("gen")
+    priv = Struct("VoronoiFaceIntegral", {"area": area, "centroid": cen, "normal": nrm})
+    publ = Struct("AreaCentroidIntegral", {"area": area, "centroid": cen})
+    same = lambda a, b: And(Eq(a.f["area"], b.f["area"]), veq(a.f["centroid"], b.f["centroid"]))
+    res = {}
+    for file, ty, acc in (("voronoi/voronoi_face.rs", "VoronoiFaceIntegral", priv), ("voronoi/integrals.rs", "AreaCentroidIntegral", publ)):
+        uc = Unit(file, ty + "::collect@FaceIntegral"); ufz = Unit(file, ty + "::finalize@FaceIntegral")
+        units += [uc, ufz]
+        ctx = symex.Ctx()
+        _, env, ctx, _ = uc.run({"self": acc, "v0": v0, "v1": v1, "v2": v2, "gen": g}, ctx, extra_files=XF)
+        ctx3 = symex.Ctx()
+        fin, _, ctx3, _ = ufz.run({"self": acc}, ctx3, extra_files=XF)
+        res[ty] = (env.vars["self"], ctx, fin, ctx3)
+    (pc, c1, pf, c3), (qc, d1, qf, d3) = res["VoronoiFaceIntegral"], res["AreaCentroidIntegral"]
+    lab = "VoronoiFaceIntegral vs AreaCentroidIntegral (voronoi_face.rs / integrals.rs)"
+    obs.append(Obligation(prefix + ".stored_vs_public.collect_accumulates_the_same_area_and_centroid", c1.assume + c1.ok + d1.assume + d1.ok, same(pc, qc), lab))
+    obs.append(Obligation(prefix + ".stored_vs_public.finalize_yields_the_same_area_and_centroid", c3.assume + c3.ok + d3.assume + d3.ok, same(pf, qf), lab,
+                          note="for EVERY accumulated area, also zero and (rounding of a sliver face) slightly negative ones"))
+    obs.append(Obligation(prefix + ".stored_vs_public.requires_satisfiable", c1.assume + c1.ok + d1.assume + d1.ok + c3.assume + c3.ok + d3.assume + d3.ok, TRUE, lab, expect_sat=True))
+    return obs, units
+
 
 
 def route_probe(seed, n_sets):
@@ -47,6 +83,7 @@ def run(tier, seed):
     o2, f2 = rules.constructed_iff_selected_obligations("C13"); obs += o2; fns += f2
     # both routes hand the same (normalised) box to the cells: a necessary part of 'integrator route == direct route'
     o3, f3 = dims.normalisation_obligations("C13"); obs += o3; fns += f3
+    o4, u4 = twin_obligations("C13"); obs += o4; fns += [{"fn": u.label, "slice_sha": u.sha} for u in u4]
     smt.discharge_all(obs, tier)
     results = [runner.from_smt(o) for o in obs]
     n, bad = route_probe(seed, 30 if tier == "quick" else 300)
